@@ -339,6 +339,57 @@ def cells_from(mask_letters, total, used, per):
     return [mask_letters, ["HR", total], cov, avg]
 
 
+
+# ------------------------------------------------------------------ front ends in process
+class _Capture:
+    """Run a front end's entry function in process: cwd changed, sys.argv set, file
+    descriptors 1 and 2 redirected (report.summary / report.files bind sys.stdout as a
+    default argument at import time, so replacing sys.stdout is not enough), handlers
+    that the entry function adds to the `codebasin` logger removed again."""
+
+    def __init__(self, cwd, argv0, outfile):
+        self.cwd, self.argv0, self.outfile = str(cwd), argv0, str(outfile)
+
+    def run(self, fn, argv):
+        log = logging.getLogger("codebasin")
+        before = list(log.handlers)
+        old_cwd, old_argv = os.getcwd(), sys.argv
+        sys.stdout.flush()
+        sys.stderr.flush()
+        s1, s2 = os.dup(1), os.dup(2)
+        fo = os.open(self.outfile, os.O_WRONLY | os.O_CREAT | os.O_TRUNC, 0o600)
+        fe = os.open(os.devnull, os.O_WRONLY)
+        rc = 0
+        try:
+            os.dup2(fo, 1)
+            os.dup2(fe, 2)
+            os.chdir(self.cwd)
+            sys.argv = [self.argv0] + list(argv)
+            try:
+                fn()
+            except SystemExit as e:
+                rc = 0 if e.code in (0, None) else (e.code if isinstance(e.code, int) else 1)
+            except Exception as e:  # noqa  (main() would log the error and exit 1)
+                rc = ["Err", type(e).__name__]
+        finally:
+            sys.stdout.flush()
+            sys.stderr.flush()
+            os.dup2(s1, 1)
+            os.dup2(s2, 2)
+            for fd in (s1, s2, fo, fe):
+                os.close(fd)
+            os.chdir(old_cwd)
+            sys.argv = old_argv
+            for h in list(log.handlers):
+                if h not in before:
+                    log.removeHandler(h)
+                    try:
+                        h.close()
+                    except Exception:  # noqa
+                        pass
+        with open(self.outfile, encoding="utf-8", errors="replace") as fh:
+            return rc, fh.read()
+
 # ------------------------------------------------------------------ the check
 class C06(Check):
     prop_id = "C06"
@@ -461,8 +512,36 @@ class C06(Check):
                     ans["cov_cli"] = [[e["file"].split("/"), e["id"], e["used_lines"], e["unused_lines"]] for e in cov]
                 else:
                     ans["cov_cli"] = ["Exit", r.returncode, r.stderr[-200:]]
+        elif ans["status"] == "Ok":
+            self._fronts_inproc(case, base, root, ans)
         self._ia[self.key(case)] = ans
         return ans
+
+    def _fronts_inproc(self, case, base, root, ans):
+        """the same three front ends through their entry functions (argument parsing, analysis
+        file, platform selection, excludes, report selection), without a new interpreter"""
+        import codebasin.__main__ as cbmain
+        import codebasin.tree as cbtree
+        from codebasin.coverage import __main__ as covmain
+        k = case["levels"]
+        self.hist["front_inproc_cases"] = self.hist.get("front_inproc_cases", 0) + 1
+        rc, out = _Capture(root, "codebasin", base / "out_summary.txt").run(cbmain._main, ["-R", "summary", "analysis.toml"])
+        ans["summary_cli"] = parse_summary(out) if rc == 0 else ["Exit", rc, ""]
+        ans["tree_cli"] = {}
+        for v, (prune, lev) in enumerate(VARIANTS):
+            argv = (["--prune"] if prune else []) + (["-L", str(k)] if lev else []) + ["analysis.toml"]
+            rc, out = _Capture(root, "codebasin.tree", base / "out_tree.txt").run(lambda: cbtree.cli(argv), argv)
+            ans["tree_cli"][str(v)] = parse_tree(out, root) if rc == 0 else ["Exit", rc, ""]
+        argv = ["compute", "-S", str(root), "-o", str(base / "cov_cli.json")]
+        for x in case["exclude"]:
+            argv += ["-x", x]
+        argv.append(str(root / "all.json"))
+        rc, out = _Capture(base / "covcwd", "codebasin.coverage", base / "out_cov.txt").run(lambda: covmain.cli(argv), argv)
+        if rc == 0:
+            cov = json.loads((base / "cov_cli.json").read_text())
+            ans["cov_cli"] = [[e["file"].split("/"), e["id"], e["used_lines"], e["unused_lines"]] for e in cov]
+        else:
+            ans["cov_cli"] = ["Exit", rc, ""]
 
     def _inproc(self, case, base, root, codebasin, config, finder, report, CodeNode, covmain):
         k = case["levels"]
